@@ -116,3 +116,101 @@ Proof.
   split; [reflexivity|]. split; [intros i; apply indent_shared|]. split; [apply indent_default|].
   split; reflexivity.
 Qed.
+
+(* ---------- histories ---------- *)
+Inductive subseq : list item -> list item -> Prop :=
+| ss_nil : subseq [] []
+| ss_skip x a b : subseq a b -> subseq a (x :: b)
+| ss_keep x a b : subseq a b -> subseq (x :: a) (x :: b).
+
+Lemma subseq_refl l : subseq l l.
+Proof. induction l; constructor; assumption. Qed.
+
+Lemma del_key_subseq k l : subseq (del_key k l) l.
+Proof.
+  induction l as [|[i k'|i] r IH]; cbn [del_key]; [constructor| |constructor; exact IH].
+  destruct (k' =? k); [apply ss_skip, subseq_refl|apply ss_keep, IH].
+Qed.
+
+Lemma del_last_meta_subseq l : subseq (del_last_meta l) l.
+Proof.
+  induction l as [|it r IH]; cbn [del_last_meta]; [constructor|].
+  destruct (is_meta it && negb (existsb is_meta r)); [apply ss_skip, subseq_refl|apply ss_keep, IH].
+Qed.
+
+Lemma filter_subseq f l : subseq (filter f l) l.
+Proof. induction l as [|x r IH]; cbn [filter]; [constructor|]. destruct (f x); constructor; exact IH. Qed.
+
+(* the C18 statement for one step, relative to the state the step starts from *)
+Definition step_spec (p : parent) (o : hop) (p' : parent) : Prop :=
+  match o with
+  | HSetItem k =>
+    if has_key k (p_items p) then p' = p
+    else exists new, p_items p' = p_items p ++ [IMeta new k]
+      /\ (forall i, metas (p_items p) <> [] ->
+                    (forall m, In m (metas (p_items p)) -> item_indent m = i) -> new = i)
+      /\ (metas (p_items p) = [] -> new = parent_indent p ++ p_indent_by p)
+      /\ p_indent p' = p_indent p /\ p_indent_by p' = p_indent_by p
+  | HAppendRaw it | HInsertRaw _ it => extends p p' [it]
+  | HDelKey _ | HPop | HClear =>
+    subseq (p_items p') (p_items p) /\ p_indent p' = p_indent p /\ p_indent_by p' = p_indent_by p
+  | HSetIndentBy s => p_items p' = p_items p /\ p_indent p' = p_indent p /\ p_indent_by p' = s
+  | HSetIndent s =>
+    p_items p' = p_items p /\ p_indent_by p' = p_indent_by p
+    /\ p_indent p' = match p_indent p with Some _ => Some s | None => None end
+  end.
+
+Theorem hstep_spec p o : step_spec p o (fst (hstep p o)).
+Proof.
+  destruct o as [k|it|n it|k| | |s|s]; cbn [hstep step_spec fst].
+  - destruct (has_key k (p_items p)) eqn:H.
+    + apply setitem_existing, H.
+    + apply (meta_rule p k H).
+  - apply append_raw_frame.
+  - apply insert_raw_frame.
+  - destruct (has_key k (p_items p)); cbn [fst].
+    + split; [apply del_key_subseq|split; reflexivity].
+    + split; [apply subseq_refl|split; reflexivity].
+  - destruct (existsb is_meta (p_items p)); cbn [fst].
+    + split; [apply del_last_meta_subseq|split; reflexivity].
+    + split; [apply subseq_refl|split; reflexivity].
+  - split; [apply filter_subseq|split; reflexivity].
+  - repeat split.
+  - repeat split.
+Qed.
+
+(* every step of every history satisfies the statement w.r.t. the state current at that step *)
+Fixpoint trace_ok (p : parent) (ops : list hop) : Prop :=
+  match ops with
+  | [] => True
+  | o :: r => step_spec p o (fst (hstep p o)) /\ trace_ok (fst (hstep p o)) r
+  end.
+
+Theorem history_ok : forall ops p, trace_ok p ops.
+Proof.
+  induction ops as [|o r IH]; intros p; [exact I|]. split; [apply hstep_spec|apply IH].
+Qed.
+
+Lemma hrun_app p a b : hrun p (a ++ b) = hrun (hrun p a) b.
+Proof. revert p. induction a as [|o r IH]; intros p; [reflexivity|]. cbn. apply IH. Qed.
+
+(* after any history, a mapping assignment into an empty meta block uses the parent indent and the
+   indent_by that are current then - in particular the ones assigned last *)
+Theorem default_is_current : forall ops p k, let q := hrun p ops in
+  metas (p_items q) = [] ->
+  p_items (hrun p (ops ++ [HSetItem k])) = p_items q ++ [IMeta (parent_indent q ++ p_indent_by q) k].
+Proof.
+  intros ops p k q Hm. rewrite hrun_app. fold q. cbn [hrun hstep fst].
+  assert (Hk : has_key k (p_items q) = false).
+  { clear -Hm. induction (p_items q) as [|[i k'|i] r IH]; [reflexivity|discriminate|].
+    cbn in *. apply IH, Hm. }
+  rewrite (setitem_creates q k Hk). cbn [p_items with_items]. rewrite (indent_default q Hm). reflexivity.
+Qed.
+
+Theorem assigned_is_current : forall ops p s,
+  p_indent_by (hrun p (ops ++ [HSetIndentBy s])) = s
+  /\ (p_indent (hrun p ops) <> None -> p_indent (hrun p (ops ++ [HSetIndent s])) = Some s).
+Proof.
+  intros ops p s. rewrite !hrun_app. cbn [hrun hstep fst p_indent_by p_indent]. split; [reflexivity|].
+  destruct (p_indent (hrun p ops)); [reflexivity|congruence].
+Qed.
